@@ -194,6 +194,8 @@ class AutoRestartTrick(Trick):
         self._is_trick_stopping = False
         self._stopping_lock = threading.RLock()
         self._restart_lock = threading.Lock()
+        # Held by stop() from beginning to end: a concurrent stop() returns only when all is stopped.
+        self._stop_lock = threading.Lock()
         # Watchers that were told to stop when their process was stopped; stop() waits for them.
         self._retired_watchers: list[ProcessWatcher] = []
 
@@ -211,6 +213,10 @@ class AutoRestartTrick(Trick):
                 self._start_process()
 
     def stop(self) -> None:
+        with self._stop_lock:
+            self._stop()
+
+    def _stop(self) -> None:
         # Ensure the body of the function is only run once.
         with self._stopping_lock:
             if self._is_trick_stopping:
